@@ -732,6 +732,7 @@ func c17NewerWins(p *Program, r *Report) {
 			}
 			// lookups of the same key in the member table
 			absent, newerE := map[edge]bool{}, map[edge]bool{}
+			foundE, olderE := map[edge]bool{}, map[edge]bool{}
 			for _, in2 := range g.Nodes {
 				lk, isL := in2.(*ssa.Lookup)
 				if !isL || !lk.CommaOk {
@@ -740,16 +741,42 @@ func c17NewerWins(p *Program, r *Report) {
 				if f, _ := fieldLoad(lk.X); f != vr.Members || !sameValue(lk.Index, mu.Key) {
 					continue
 				}
-				_, missing := g.okEdgesLookup(lk)
+				found, missing := g.okEdgesLookup(lk)
 				absent = mergeEdges(absent, missing)
-				tr, _ := callEdges(g, func(c *ssa.Call) bool {
+				foundE = mergeEdges(foundE, found)
+				tr, fa := callEdges(g, func(c *ssa.Call) bool {
 					if c.Call.StaticCallee() != newer || incoming == nil {
 						return false
 					}
 					return strip(c.Call.Args[0]) == strip(incoming) && derivesFromExtract(c.Call.Args[1], lk, 0)
 				})
 				newerE = mergeEdges(newerE, tr)
+				olderE = mergeEdges(olderE, fa)
 			}
+			// the converse: a known member is left as it is only because the incoming state is not newer — once the lookup found
+			// an entry, the only way around the store (to the next iteration or out of the function) is the false edge of that
+			// comparison; any further condition (clock skew, local status, strategy) makes the result depend on the merge order
+			iterEnd := map[int]bool{}
+			afterStore := g.ReachAfter(i, nil, nil)
+			for j, in2 := range g.Nodes {
+				// the iterator of the loop the store lies in (not the loops of spliced-in helpers such as Clone)
+				if _, isN := in2.(*ssa.Next); isN && in2.Parent() == mu.Parent() && afterStore[j] && g.ReachAfter(j, nil, nil)[i] {
+					iterEnd[j] = true
+				}
+			}
+			for _, ex := range g.Exits {
+				iterEnd[ex] = true
+			}
+			ok3 := len(foundE) > 0
+			for e := range foundE {
+				if e.to == i {
+					continue
+				}
+				if anyOf(g.Reach([]int{e.to}, setOf(i), olderE), iterEnd) || iterEnd[e.to] {
+					ok3 = false
+				}
+			}
+			r.Check(ok3, "member store in "+fnName(fn)+" whenever newer", mu.Pos(), "once the lookup of the same key found an entry, every path to the next iteration or to a return either performs the store or takes the false edge of incoming.IsNewerThan(existing): a newer incarnation is adopted whatever else holds (clock skew, local status, merge strategy)")
 			ok2 := len(newerE) > 0 && g.DominatedByEdges(i, mergeEdges(absent, newerE))
 			r.Check(ok2, "member store in "+fnName(fn)+" only when absent or newer", mu.Pos(), "the store is reachable only through the not-found edge of a lookup of the same key or the true edge of incoming.IsNewerThan(existing) with existing being that lookup's value: a member is never replaced by an older incarnation")
 		}
@@ -1719,4 +1746,15 @@ func isStringSlice(t types.Type) bool {
 	}
 	b, ok := sl.Elem().Underlying().(*types.Basic)
 	return ok && b.Kind() == types.String
+}
+
+
+// anyOf: the two node sets intersect.
+func anyOf(a, b map[int]bool) bool {
+	for n := range b {
+		if a[n] {
+			return true
+		}
+	}
+	return false
 }
